@@ -442,6 +442,11 @@ def c15(tier, seed, work):
     crash_stage(rep, work, "crash-single",
                 store_consts(Buckets={"bkt1"}, CfgName="single", OpNames=CORE_OPS - {"ListBuckets", "HeadBucket", "CreateBucket", "DeleteBucket"}),
                 ["singlemem", "singleos"])
+    if tier == "thorough":
+        # the real cmd/gofakes3 binary under load, killed with SIGKILL at seeded instants and restarted on the same
+        # storage; the recorded history (with crash events) is validated by TraceConc
+        conc_stage(rep, work, "kill-9-bolt", ["bolt"], [2], runs=12, ops=0, keys=3, gated=False, kill_rounds=5)
+        conc_stage(rep, work, "kill-9-fs", ["fs", "directfs"], [2], runs=6, ops=0, keys=3, gated=False, kill_rounds=4)
     rep.assumptions += [
         "clean restart = Close() of the bolt file / dropping the fs backend object, then constructing a new backend on the same file or directory",
     ]
